@@ -71,9 +71,18 @@ def worker(job):
         e = out.get('error_obj')
         return isinstance(e, (NetworkError, ProtocolError))
 
+    mode = {'ignore_length': False}
+
     def run(seq_pieces):
         responses = [{'pieces': p, 'then': t, 'method': m} for p, t, m in seq_pieces]
-        outcomes, peer, net = httpdrive.run_sequence(responses)
+        kwargs = None
+        if mode['ignore_length']:
+            # --ignore-length: a Content-Length field is not trusted, such bodies are read until the connection closes;
+            # every other framing rule is unchanged
+            import functools
+            from wpull.protocol.http.stream import Stream
+            kwargs = {'stream_factory': functools.partial(Stream, ignore_length=True)}
+        outcomes, peer, net = httpdrive.run_sequence(responses, client_kwargs=kwargs)
         part.count('sequence_runs')
         return outcomes, peer, net
 
@@ -145,6 +154,13 @@ def worker(job):
                                 part.violation('overrun-connection-reused', {'exchange': i}, replay)
                             else:
                                 part.count('overrun_followed_by_new_connection')
+                        if i + 1 < len(outcomes) and x['classes'].get('conn_close_linger') and o['error'] is None and \
+                                outcomes[i + 1].get('conn_id') is not None:
+                            if outcomes[i + 1].get('conn_id') == o.get('conn_id'):
+                                part.violation('connection-reused-after-connection-close-response/' + x['classes']['framing'],
+                                               {'exchange': i}, replay)
+                            else:
+                                part.count('connection_close_response_followed_by_new_connection')
                         if o['error'] is None and x['then'] == 'keep' and o.get('buffered_after') and \
                                 x['classes']['framing'] not in ('overrun', 'overrun0', 'interim'):
                             part.violation('bytes-left-unread/' + x['classes']['framing'],
@@ -215,6 +231,7 @@ def worker(job):
     if 'replay' in job:
         rp = common.unjson(job['replay'])
         seq = rp['seq']
+        mode['ignore_length'] = bool(rp.get('ignore_length'))
         if 'truncated_at' in rp:
             check_truncations(seq[0], {'seq': seq})
         else:
@@ -225,6 +242,21 @@ def worker(job):
     for n in range(job['n']):
         k = rng.choice([1, 1, 2, 3, 4, 5])
         allow = None if rng.random() < 0.35 else core
+        mode['ignore_length'] = False
+        if rng.random() < 0.12:
+            # one sequence in eight with --ignore-length (each response then ends with the connection)
+            mode['ignore_length'] = True
+            seq = []
+            for i in range(k):
+                r = httpgen.gen_response(rng, allow=['length', 'chunked', 'chunked', 'close', 'length0', 'chunked-case', 'x-gzip', 'nobody',
+                                                     'head', 'te+cl'])
+                r['then'] = 'eof'
+                r['classes']['ignore_length'] = True
+                seq.append(r)
+            check_sequence(seq, {'seq': seq, 'ignore_length': True})
+            part.count('sequences_with_ignore_length')
+            mode['ignore_length'] = False
+            continue
         seq = []
         for i in range(k):
             r = httpgen.gen_response(rng, allow=allow)
